@@ -46,7 +46,15 @@ def check(case: Dict[str, Any]) -> CaseInfo:
     mode = case.get("mode", "load")
     with scratch_dir() as d:
         files = write_case(case, d)
-        if mode == "parse":
+        if mode == "dir":
+            # rank discovery from the files' metadata (no explicit rank -> file map)
+            from hta.trace_analysis import TraceAnalysis
+            from hv.hta_io import quiet
+
+            quiet()
+            t = hta_call("TraceAnalysis(trace_dir)", lambda: TraceAnalysis(trace_dir=d)).t
+            require(sorted(t.traces) == sorted(files), "dir:ranks_from_metadata", lambda: f"{sorted(t.traces)} vs {sorted(files)}")
+        elif mode == "parse":
             t = load_trace(files, d, parse_only=True, mp=case.get("mp", False))
         elif mode == "analysis":
             t = load_analysis(files, d, mp=True).t
@@ -120,7 +128,7 @@ def check(case: Dict[str, Any]) -> CaseInfo:
         classes.append("fractional")
     if len(case["ranks"]) >= 2:
         classes.append("multi_rank")
-    if case.get("mp") or mode == "analysis":
+    if case.get("mp") or mode in ("analysis", "dir"):
         classes.append("multiprocessing")
     if any(r.ts != ts for exp in expected.values() for r, ts, _, _ in exp.values()):
         classes.append("rounding_changes_a_stamp")
